@@ -7,7 +7,7 @@ timeout = 120
 function = "DetailedPlacer::legalize, DetailedPlacer::place (place_detailed.cpp), GlobalPlacer::place (place_global.cpp): order of parameter check, run, export and callback"
 variants = [
   {name = "legalize", enforce = "DetailedPlacer_legalize", defines = ["H_LEGALIZE"], replace = ["ColoquinteParameters_check", "Legalizer_fromIspdCircuit", "Legalizer_run", "Legalizer_meanDistance", "Legalizer_exportPlacement", "Callback_call"]},
-  {name = "dplace", enforce = "DetailedPlacer_place", defines = ["H_DPLACE"], replace = ["ColoquinteParameters_check", "DetailedPlacer_legalize", "DetailedPlacer_ctor", "DetailedPlacer_check", "DetailedPlacer_run", "DetailedPlacer_exportPlacement"]},
+  {name = "dplace", enforce = "DetailedPlacer_place", defines = ["H_DPLACE"], replace = ["ColoquinteParameters_check", "DetailedPlacer_legalize", "Circuit_legalize", "DetailedPlacer_ctor", "DetailedPlacer_check", "DetailedPlacer_run", "DetailedPlacer_exportPlacement"]},
   {name = "gplace", enforce = "GlobalPlacer_place", defines = ["H_GPLACE"], replace = ["ColoquinteParameters_check", "GlobalPlacer_ctor", "GlobalPlacer_run", "GlobalPlacer_exportPlacement"]},
 ]
 assumptions = ["callees are replaced by protocol contracts over ghost state (checked / built / ran / exported); only the export callee has the circuit's positions in its frame (frames of the export functions: units c03_*)",
@@ -84,9 +84,16 @@ rewrites = [['params\.check\(\);', 'ColoquinteParameters_check(params); VERIF_PR
 
 #ifdef H_DPLACE
 void DetailedPlacer_legalize(Circuit *circuit_p, const ColoquinteParameters *params, bool callback_has_value)
+__CPROVER_requires(circuit_p->isInUse_)
 __CPROVER_ensures(!verif_exc ==> (g_legalized && g_checked))
 __CPROVER_assigns(verif_exc, g_checked, g_legalized, g_pos_version);
+/* the public entry point: it marks the circuit busy for its own duration and releases it at the end (unit c10_entry) */
+void Circuit_legalize(Circuit *circuit_p, const ColoquinteParameters *params, bool callback_has_value)
+__CPROVER_requires(1)
+__CPROVER_ensures(!circuit_p->isInUse_ && (!verif_exc ==> (g_legalized && g_checked)))
+__CPROVER_assigns(verif_exc, g_checked, g_legalized, g_pos_version, circuit_p->isInUse_);
 DetailedPlacer DetailedPlacer_ctor(Circuit *circuit_p, const ColoquinteParameters *params)
+__CPROVER_requires(circuit_p->isInUse_)   /* C10: the circuit stays busy for the whole placement call (callbacks run inside run()) */
 __CPROVER_requires(g_legalized && g_checked)  /* C02: detailed placement starts from the legalized placement, with accepted parameters */
 __CPROVER_ensures(!verif_exc ==> g_built)
 __CPROVER_assigns(verif_exc, g_built);
@@ -103,14 +110,17 @@ __CPROVER_ensures(g_exported)
 __CPROVER_assigns(g_exported, g_pos_version);
 void DetailedPlacer_place(Circuit *circuit_p, const ColoquinteParameters *params, bool callback_has_value)
 __CPROVER_requires(__CPROVER_is_fresh(circuit_p, sizeof(Circuit)) && verif_exc == 0 && !g_checked && !g_built && !g_ran && !g_exported && !g_legalized && !g_final_check)
+__CPROVER_requires(circuit_p->isInUse_)   /* established by Circuit::placeDetailed (unit c10_entry: the placer is entered with the flag set) */
 __CPROVER_ensures(!verif_exc ==> g_exported)
-__CPROVER_assigns(verif_exc, g_checked, g_built, g_ran, g_exported, g_legalized, g_pos_version, g_final_check)
+__CPROVER_assigns(verif_exc, g_checked, g_built, g_ran, g_exported, g_legalized, g_pos_version, g_final_check, circuit_p->isInUse_)
 #define circuit (*circuit_p)
 /*@extract
 file = "src/place_detailed/place_detailed.cpp"
 head = 'void DetailedPlacer::place\(Circuit &circuit'
 drop = [ ['std::cout\s*<<[^;]*;', '1+'], ['auto (?:startTime|endTime) = std::chrono::steady_clock::now\(\);', '2'], ['std::chrono::duration<float> duration = endTime - startTime;', '1'] ]
-rewrites = [['\blegalize\(circuit, params, callback\);', 'DetailedPlacer_legalize(circuit_p, params, callback_has_value); VERIF_PROPAGATE;', '1+'],
+rewrites = [['(?<![\w.])legalize\(circuit, params, callback\);', 'DetailedPlacer_legalize(circuit_p, params, callback_has_value); VERIF_PROPAGATE;', '*'],
+  ['\bcircuit\.legalize\(params, callback\);', 'Circuit_legalize(circuit_p, params, callback_has_value); VERIF_PROPAGATE;', '*'],
+  ['(DetailedPlacer|Circuit)_legalize\(circuit_p, params, callback_has_value\);', '\g<0>', '1+'],
   ['params\.check\(\);', 'ColoquinteParameters_check(params); VERIF_PROPAGATE;', '1+'],
   ['DetailedPlacer pl\(circuit, params\);', 'DetailedPlacer pl = DetailedPlacer_ctor(circuit_p, params); VERIF_PROPAGATE;', '1+'],
   ['pl\.callback_ = callback;', 'pl.callback_has_value = callback_has_value;', '1'],
